@@ -375,6 +375,23 @@ def r18(src, counts):
     return re.sub(r'^(\s*)return (self\.\w+\([^;\n]*\));', rep, src, flags=re.M)
 
 
+def r19(src, counts):
+    """`A.checked_mul(B).unwrap_or_else(|| panic!(..))` (over one or several lines) -> `crate::mul_or_panic(A, B)`:
+    the shim's precondition `A * B <= usize::MAX` IS the statement that the panic branch is dead."""
+    m = mask(src)
+    out = []
+    last = 0
+    for mo in re.finditer(r'(\b\w+)\s*\.checked_mul\(((?:self\.)?\w+)\)\s*\.unwrap_or_else\(', m):
+        ob = mo.end() - 1
+        cb = match_close(m, ob, '(', ')')
+        out.append(src[last:mo.start()])
+        out.append('crate::mul_or_panic(%s, %s)' % (mo.group(1), mo.group(2)))
+        last = cb + 1
+        counts['R19.checked_mul_panic'] += 1
+    out.append(src[last:])
+    return ''.join(out)
+
+
 def r13(src, counts):
     """`impl<W> Write for Stream<W>` becomes an inherent impl (`pub fn write`, `pub fn flush`): the
     methods keep their bodies, only the trait-ness is dropped, so that their contracts can speak about
@@ -459,6 +476,6 @@ def extract_file(path, modpath):
     """Return (rewritten_source, counts)."""
     counts = Counter()
     src = open(path).read()
-    for rule in (r1, r2, r3, r4, r5, r6, r7, r8, r9, r10, r11, r12, r13, r16, r17, r18, r15):
+    for rule in (r1, r2, r3, r4, r5, r6, r7, r8, r9, r10, r11, r12, r13, r16, r17, r18, r19, r15):
         src = rule(src, counts)
     return src, counts
